@@ -469,6 +469,38 @@ def splice_fn(repo, file, item_path, sections, trait=None, nth=0, opts=(), canar
             if not code:
                 raise AnchorLost('for-loop header without an iterator expression')
             ed.blank(kw, in_idx)
+            # X2h (`opts=for_filter_as_continue`): `for PAT in ITER.filter(|FP| COND) { BODY }` is the loop over ITER that skips the
+            # elements for which COND, given a reference to the element, is false:
+            #   `while let Some(cv_f) = it.next() { { let FP = &cv_f; if !(COND) { continue; } } let PAT = cv_f; BODY }`
+            # (several trailing `.filter(..)` calls: their tests in order).  The filter's CONDITION becomes verified text.
+            filt_pre = ''
+            if 'for_filter_as_continue' in opts:
+                tests = []
+                while len(code) >= 4 and toks[code[-1]].text == ')':
+                    o = None
+                    for cj in range(len(code) - 1, -1, -1):
+                        if toks[code[cj]].kind == 'open' and rs.match_close(toks, code[cj]) == code[-1]:
+                            o = cj
+                            break
+                    if o is None or o < 2 or toks[code[o - 1]].text != 'filter' or toks[code[o - 2]].text != '.' or toks[code[o + 1]].text != '|':
+                        break
+                    pe = o + 2
+                    while pe < len(code) and toks[code[pe]].text != '|':
+                        pe += 1
+                    fpat = ''.join(toks[j].text for j in range(code[o + 2], code[pe - 1] + 1)) if pe > o + 2 else '_'
+                    cond = ''.join(toks[j].text for j in range(code[pe + 1], code[-1]))
+                    cond = ' '.join(cond.split())
+                    tests.insert(0, (fpat, cond))
+                    ed.blank(code[o - 2], code[-1])
+                    code = code[:o - 2]
+                if tests:
+                    for fpat, cond in tests:
+                        filt_pre += ' { let %s = &cv_f%d; if !(%s) { continue; } }' % (fpat, n, cond)
+                    filt_pre += ' let %s = cv_f%d; ' % (pat, n)
+                    rules['X2h-for-filter'] = rules.get('X2h-for-filter', 0) + len(tests)
+                    dropped.append('%s:%d `for %s in ITER%s` written as the loop over ITER that skips (`continue`) an element failing the test (X2h)' % (
+                        file, toks[kw].line, pat, ''.join('.filter(|%s| %s)' % t for t in tests)))
+                    pat = 'cv_f%d' % n
             # a loop label (`'outer: for ..`) moves with the loop: it is re-attached to the `while let`
             label = ''
             prev = [j for j in range(max(0, kw - 8), kw) if toks[j].kind not in ('ws', 'comment', 'doc')]
@@ -483,6 +515,8 @@ def splice_fn(repo, file, item_path, sections, trait=None, nth=0, opts=(), canar
                 ed.ins_after(lopen, ' let %s = *cv_ref%d; ' % (m_ref.group(1), n))
             else:
                 ed.ins_after(code[-1], ').into_iter(); %swhile let Some(%s) = cv_it%d.next() ' % (label, pat, n))
+            if filt_pre:
+                ed.ins_after(lopen, filt_pre)
             ed.ins_after(lclose, ' }')
             rules['X2c-for'] = rules.get('X2c-for', 0) + 1
             dropped.append('%s:%d `for %s in ..` written as `while let Some(%s) = it.next()` over `.into_iter()` (X2c)' % (file, toks[kw].line, pat, pat))
@@ -896,6 +930,9 @@ def splice_fn(repo, file, item_path, sections, trait=None, nth=0, opts=(), canar
                 ed.ins_before(lopen, '\n' + text)
             elif what == 'body_start':
                 ed.ins_after(lopen, '\n' + text)
+            elif what == 'body_first':
+                # ghost code that must run for EVERY element the iterator yields, ahead of the tests rule X2h places at the body's start
+                ed.after.setdefault(lopen, []).insert(0, '\n' + text)
             elif what == 'body_end':
                 ed.ins_before(lclose, text)
             elif what == 'after':
